@@ -14,6 +14,19 @@ CLAIMED["C19"] = dict(
    note="machine-int-as-math; strings.Repeat/Join, fmt.Errorf assumed (extern); strings modelled as byte arrays with an uninterpreted equality; renderValue/resolveCounter/UpdateCounters unverified",
    ref="DESIGN.md §4 C19")
 
+CLAIMED["C10"] = dict(
+   text="The CSS 2.1 arithmetic kernels of block layout are under contract and proved for all real inputs: blockLevelWidth_ (10.3.3: the seven-term equation holds whenever width or a margin was auto and the box is not over-constrained, auto margins centre, a given width is kept, auto width zeroes auto margins, over-constraint keeps the given values and the ltr position; frame: only Width/MarginLeft/MarginRight/PositionX of the box change), collapseMargin (largest positive + most negative, quantified over the list), ResolvePercentage (px / percentage / auto), MaybeFloat.V. The threading of adjoining margins through blockContainerLayout and min/max re-resolution are NOT under contract.",
+   note="float-as-real; interface dispatch of MaybeFloat.V and Box.Box() by assumed (listed) interface contracts; style accessors assumed pure; only the listed kernels are verified, not the layout recursion around them",
+   ref="DESIGN.md §4 C10")
+CLAIMED["C11"] = dict(
+   text="Only the alignment kernel is decided: textAlign is under contract (offset 0 when the line does not fit or for start/justify, (available-width)/2 for center, available-width for end, left/right mapped through direction, text-align-last on the last line) and proved for all inputs. Greedy line fitting in the text engines is out of reach and NOT claimed.",
+   note="float-as-real; style accessors assumed pure functions of the style; justifyLine/logger calls havoc the heap (the function claims no frame); splitFirstLine and the shaping engines unverified",
+   ref="DESIGN.md §4 C11")
+CLAIMED["C12"] = dict(
+   text="Page geometry and break classification kernels are under contract and proved: pageWidthOrHeight (css-page-3 page-box equation margin+padding/border+inner+margin == containing block whenever something was auto, equal auto margins, given values kept) as call-site assertions at the write-back, overflowsPage (exact formula, monotone in y), forcePageBreak / avoidPageBreak value sets. Page type selection (remakePage), blockLevelPageBreak, orphans/widows and the 'never below the page' part are NOT yet under contract.",
+   note="float-as-real; orientedBoxITF.baseBox assumed pure/non-nil; restoreBoxAttributes unverified (interface call, havoc)",
+   ref="DESIGN.md §4 C12")
+
 NOT_YET = {}
 
 NA = {
